@@ -13,6 +13,7 @@ out = []
 w = out.append
 
 w('''//@@ unit VALUEDE
+//@@ gsubst `.into_iter()` => `.into_iter_s()` rule=R11
 #![feature(allocator_api)]
 #![allow(unused_imports, unused_variables, dead_code, unused_mut, unused_parens)]
 use vstd::prelude::*;
@@ -321,6 +322,7 @@ w('''//@@ fn file=%(F)s impl=`%(VV)s` name=visit_str id=ValueVisitor::visit_str
 //@@ end
 
 //@@ fn file=%(F)s impl=`%(VV)s` name=visit_map id=ValueVisitor::visit_map
+//@@ shape loops=whilelet
 //@@ qmark
 //@@ generics
 //@@ nowhere
@@ -359,6 +361,10 @@ impl VecIter {
 }
 #[verifier::external_body]
 pub fn vec_into_iter(v: Vec<Value>) -> (r: VecIter) ensures r.rest@ == v@ { unimplemented!() }
+/// `x.into_iter()` on the two collections of the tree (std / indexmap: the elements resp. entries in order), whatever the expression is called
+pub trait IntoIterS: Sized { type It; spec fn yields(self, r: Self::It) -> bool; fn into_iter_s(self) -> (r: Self::It) ensures self.yields(r); }
+impl IntoIterS for Vec<Value> { type It = VecIter; open spec fn yields(self, r: VecIter) -> bool { r.rest@ == self@ } #[verifier::external_body] fn into_iter_s(self) -> (r: VecIter) { unimplemented!() } }
+impl IntoIterS for MapS { type It = MapIter; open spec fn yields(self, r: MapIter) -> bool { r.rest@ == self@ } #[verifier::external_body] fn into_iter_s(self) -> (r: MapIter) { unimplemented!() } }
 #[verifier::external_body]
 pub fn vec_one_into_iter(v: Value) -> (r: VecIter) ensures r.rest@ == seq![v] { unimplemented!() }
 pub struct MapIter { pub rest: Ghost<Seq<(Value, Value)>> }
@@ -547,12 +553,12 @@ fn('deserialize_unit_struct', '    ensures sp_scalar(self.value is Null, VisCall
 fn('deserialize_newtype_struct', '    ensures sp_newtype(self, name@, visitor, r),       // [C20.tree.newtype-read-under-its-own-marker] each AMQP-specific newtype is read by the entry point that understands its marker, under that marker and no other -- the same name table as de.rs (unit DEENTRY) and the three serializers',
    extra=['//@@ entry', '    proof { lemma_names_distinct(); }'])
 fn('deserialize_seq', '    ensures sp_seq(self, visitor, r),       // [C20.tree.sequence-elements-in-order] a list is read from a List node, an array (Array marker) from an Array node: the access object walks exactly the node\'s elements, in order',
-   extra=['//@@ subst `v.into_iter()` => `vec_into_iter(v)` rule=R11'])
+   extra=[])
 fn('deserialize_tuple', '    ensures sp_seq(self, visitor, r),       // [C20.tree.sequence-elements-in-order]')
 fn('deserialize_tuple_struct', '    ensures sp_seq(self, visitor, r),       // [C20.tree.sequence-elements-in-order]')
 fn('deserialize_struct', '    ensures sp_seq(self, visitor, r),       // [C20.tree.sequence-elements-in-order] a plain struct is the list of its fields')
 fn('deserialize_map', '    ensures sp_scalar(self.value is Map, VisCall::Map(self.value->Map_0@), visitor, r),       // [C20.tree.map-entries-in-order] a map is read from a Map node: the access object walks exactly the node\'s entries, in order',
-   extra=['//@@ subst `map.into_iter()` => `map_into_iter(map)` rule=R11'])
+   extra=[])
 fn('deserialize_any', '    ensures sp_any(self, visitor, r),       // [C20.tree.untyped-node-shown-as-its-own-type] with nothing known about the target, every node other than a described one is shown to the visitor as the type it IS -- the call decoding its bytes untyped makes (unit ANYDISPATCH); (described nodes: known finding D80, decided by the bounded probe tree_vs_bytes_described)',
    extra=['//@@ subst `&[""]` => `&[""; 1]` rule=optional-R5', '//@@ entry', '    proof { lemma_names_distinct(); }'])
 fn('deserialize_enum', '''    ensures
@@ -565,7 +571,7 @@ fn('deserialize_enum', '''    ensures
             Value::Symbol(s) => r == res(visitor, VisCall::Enum(seq![Value::Symbol(s)])),
             _ => r is Err }),       // [C20.tree.enum-variant-forms] a user enum is read from the forms the tree serializer writes (unit VALUETREE): a Uint / Symbol node (unit variant) or a List node whose first element is the index''',
    params=('visitor : VisS', 'name : &str', '_variants : &[&str]'),
-   extra=['//@@ subst `v.into_iter()` => `vec_into_iter(v)` rule=R11', '//@@ subst `vec![v].into_iter()` => `vec_one_into_iter(v)` rule=R11', '//@@ entry', '    proof { lemma_names_distinct(); }'])
+   extra=['//@@ subst `vec![v].into_iter()` => `vec_one_into_iter(v)` rule=R11', '//@@ entry', '    proof { lemma_names_distinct(); }'])
 fn('deserialize_identifier', '''    ensures
         !(self.enum_type is None) ==> exists|c: u8| #[trigger] own_code(self.value, c) && r == res(visitor, VisCall::U8(c)),       // [C20.tree.identifier-is-the-nodes-constructor] inside the `Value` / `Descriptor` / `Array` enums a node announces itself by the constructor of its own type (Value::format_code above)
         self.enum_type is None ==> (match self.value { Value::Uint(v) => r == res(visitor, VisCall::U32(v)), Value::Symbol(s) => r == res(visitor, VisCall::String(sym_str(s))), _ => r is Err }),''',
